@@ -8,7 +8,8 @@ CONSTANT PairMinGood = 3
 CONSTANT NS = 110
 CONSTANT StackOffsets <- ThoroughOffsets
 CONSTANT StackGrids = {1, 2, 3}
-CONSTANT Families = {"single", "infl", "pair", "pairinfl", "stack"}
+CONSTANT NE = 106
+CONSTANT Families = {"single", "infl", "pair", "pairinfl", "stack", "edge"}
 INIT Init
 NEXT Next
 INVARIANT C11_FastEqDef
@@ -23,5 +24,6 @@ INVARIANT C11_MultiIntersection
 INVARIANT C11_MultiShrinks
 INVARIANT C11_ExpIsSpec
 INVARIANT C11_StackCoverage
+INVARIANT C11_EdgeCounts
 INVARIANT C11_InflNoIsolated
 CHECK_DEADLOCK FALSE
